@@ -360,6 +360,10 @@ def verify_contract(contract, timeout_ms=10000, max_paths=400, only=None):
             results.append(dict(name=f"path@{pid}", clause="path", verdict=UNDECIDED,
                                 reason="engine error: " + "".join(traceback.format_exception_only(type(ex), ex)).strip(),
                                 tb=traceback.format_exc(), decisions=list(ctx.taken)))
+    if not results:
+        # vacuity guard: a contract whose inputs admit no feasible path proves nothing
+        results.append(dict(name="vacuity", clause="vacuity", verdict=UNDECIDED,
+                            reason="no feasible path / no obligation generated: the contract's inputs are contradictory or empty"))
     mod, _, qn = contract.target.partition(".")
     return dict(target=contract.target, obligations=results, paths=npaths,
                 calls=sorted(calls), wall=time.time() - t_start)
